@@ -293,6 +293,41 @@ def model_cases(ctx: Ctx, out: Outcome):
             ids.pop()
         elif mode != "want-used":
             out.find("generate_uuid-refuses-free-id", f"generate_uuid(want={want}) raised although the id is unused", {"kind": "genuuid", "want": want})
+    # the new_uuid bracket itself: a uuid that is requested but never used, and a creation in a file type
+    # whose ids are not indexed (viewpoint activation writes into the .afm)
+    for label in ("unused-in-semantic", "activate-viewpoint"):
+        h0, d0 = ol.frag_hashes(loader), ol.index_dump(loader)
+        scan0 = ol.raw_scan(loader)
+        try:
+            if label == "unused-in-semantic":
+                with loader.new_uuid(parent):
+                    pass
+            else:
+                m.activate_viewpoint("org.polarsys.capella.vp.verif", "1.0.0")
+            outcome = "ok"
+        except BaseException as e:  # noqa: BLE001
+            outcome = type(e).__name__
+        h1, d1 = ol.frag_hashes(loader), ol.index_dump(loader)
+        tie.apply(("bracket", label), S.diff_ops(S.scan_rows(scan0), S.scan_rows(ol.raw_scan(loader)), tie.frag_index))
+        out.case(("bracket", label, outcome), {"bracket": label, "outcome": outcome})
+        out.hit(f"bracket.{label}.{outcome}")
+        if outcome != "ok":
+            if h1 != h0:
+                out.find(f"failed-create-changes-bytes|{label}", f"{label} raised {outcome} but fragments {[f for f in h0 if h0[f] != h1[f]]} changed",
+                         {"kind": "bracket", "label": label})
+            if d1 != d0:
+                out.find(f"failed-create-leaves-index-entry|{label}", f"{label} raised {outcome} but an id stays reserved/indexed",
+                         {"kind": "bracket", "label": label})
+        elif label == "unused-in-semantic":
+            out.find("unused-uuid-accepted", "a requested uuid that was never used did not raise", {"kind": "bracket", "label": label})
+        else:
+            # accepted: no reservation may be left behind, and the viewpoint must be referenced now
+            left = {k for f in d1 for k, v in d1[f]["idc"].items() if v is None} - {k for f in d0 for k, v in d0[f]["idc"].items() if v is None}
+            if left:
+                out.find(f"reservation-left-behind|{label}", f"{label} succeeded but {len(left)} reserved id(s) stay in the index", {"kind": "bracket", "label": label})
+            if "org.polarsys.capella.vp.verif" not in dict(loader.referenced_viewpoints()):
+                out.find(f"creation-lost|{label}", "viewpoint not referenced after activation", {"kind": "bracket", "label": label})
+    # re-sync the model side with the reservations generate_uuid made above
     tie.dump(("genuuid-end",), loader)
     if os.environ.get("VERIF_NO_MODEL") != "1":
         answers = common.model(tie.req, driver="Index")
